@@ -1910,8 +1910,18 @@ class H2Connection:
         transition the state of the stream, so we need to pass it to the
         appropriate stream.
         """
-        stream = self._get_stream_by_id(frame.stream_id)
-        stream.receive_continuation()
+        try:
+            stream = self._get_stream_by_id(frame.stream_id)
+            stream.receive_continuation()
+        except StreamClosedError:
+            # RFC 7540 section 6.10: a CONTINUATION frame that does not continue
+            # a header block is a connection error whatever state its stream
+            # is in, so it is never answered with a stream error.
+            raise ProtocolError(
+                "Received CONTINUATION frame on closed stream %d" %
+                frame.stream_id
+            )
+
         assert False, "Should not be reachable"
 
     def _receive_alt_svc_frame(self, frame):
